@@ -33,6 +33,10 @@ func queryEvent(
 		return nil, fmt.Errorf("failed to build query: %w", err)
 	}
 
+	if q == "" {
+		return nil, nil
+	}
+
 	events, err = fetchEventQuery(ctx, db, q, param)
 	if err != nil {
 		return nil, fmt.Errorf("failed to fetch events with (%s, %v): %w", q, param, err)
@@ -81,6 +85,12 @@ func buildEventQuery(
 	var subs []exp.Expression
 
 	for i, f := range fs {
+		if f.Limit != nil && *f.Limit <= 0 {
+			// limit 0 selects nothing; goqu's Limit(0) would clear the limit
+			// and select everything instead
+			continue
+		}
+
 		esub := e.As(fmt.Sprintf("esub%d", i))
 
 		sub := sqlite3.
@@ -173,6 +183,11 @@ func buildEventQuery(
 		}
 
 		subs = append(subs, sub)
+	}
+
+	if len(subs) == 0 {
+		// every filter had limit 0
+		return "", nil, nil
 	}
 
 	var ors []exp.Expression
